@@ -1,4 +1,5 @@
 import BlochVerif.Eval.Model
+import BlochVerif.Eval.GateCall
 /-!
 # C12 — running an accepted program never crashes the interpreter
 
@@ -87,5 +88,30 @@ theorem store_refusals_are_located (arr : Value) (i : Int) (rhs : Value) (p : P)
   unfold arrayStore
   simp only [oob]
   split <;> loc_tac
+
+end BlochVerif.Props.C12
+
+/-! ## quantum operations: the simulator's un-located refusals are unreachable -/
+namespace BlochVerif.Props.C12
+open BlochVerif BlochVerif.Eval BlochVerif.Parse
+
+/-- In every state a program can reach (`Eval.Agree` is an invariant of every call: `Props/C06`), a built-in gate call,
+a measurement and a reset either succeed or stop with a runtime diagnostic **at the position of the operation**: the
+simulator's own checks, which know no source position, can never be what the user sees, because the evaluator's
+located guard refuses first and the simulator accepts whatever the guard has let through. -/
+theorem quantum_operations_fail_only_with_located_diagnostics (st : EState) (hi : Agree st) (p : P) (e : RErr) :
+    (∀ name argv, (applyBuiltin name argv p).run st = .error e → ∃ msg, e = .runtime p.line p.col msg) ∧
+    (∀ q, (measureQubit q p).run st = .error e → ∃ msg, e = .runtime p.line p.col msg) ∧
+    (∀ q, (resetQubit q p).run st = .error e → ∃ msg, e = .runtime p.line p.col msg) :=
+  ⟨fun name argv h => applyBuiltin_errors_are_located st hi name argv p e h,
+   fun q h => measureQubit_errors_are_located st hi q p e h,
+   fun q h => resetQubit_errors_are_located st hi q p e h⟩
+
+/-- the refusals do occur (the statement is not vacuous): `h` on a measured qubit stops at the call's position -/
+example : (applyBuiltin "h" [{ type := .Qubit, qubit := 0 }] ⟨3, 7⟩).run
+      { sim := { n := 1, amps := #[default, default], measured := #[true] },
+        qubits := [{ name := "q", measured := true }], lookupFn := fun _ => none } =
+    .error (.runtime 3 7 "qubit has already been measured") := by
+  rfl
 
 end BlochVerif.Props.C12
